@@ -35,6 +35,15 @@ async def _run(script, ops):
             return None if not result else value + result[0]
         return cb
 
+    class Holder:
+        """plain callbacks are bound methods: every attribute access yields a new, equal method object (as the library's own
+        subscriptions of device methods do), so unsubscribing hands over an equal but not identical callback"""
+        def __init__(self, fn):
+            self._fn = fn
+
+        async def on_value(self, value):
+            return await self._fn(value)
+
     async def settle():
         for _ in range(8):
             await asyncio.sleep(0)
@@ -54,9 +63,9 @@ async def _run(script, ops):
         if k == 0:
             c = op[2]
             if c not in plain:
-                plain[c] = make_cb([0, c])
-                by_fn[plain[c]] = [0, c]
-            em.subscribe(name, plain[c])
+                plain[c] = Holder(make_cb([0, c]))
+                by_fn[plain[c].on_value] = [0, c]
+            em.subscribe(name, plain[c].on_value)
             log.append([6, op[1], [0, c]])
         elif k == 1:
             c, w = op[2], counter[0]
@@ -68,7 +77,7 @@ async def _run(script, ops):
             log.append([6, op[1], [1, c, w]])
         elif k == 2:
             sub = op[2]
-            fn = plain.get(sub[1]) if sub[0] == 0 else (once_cb.get(sub[2], (None, None))[1])
+            fn = (plain[sub[1]].on_value if sub[1] in plain else None) if sub[0] == 0 else (once_cb.get(sub[2], (None, None))[1])
             found = em.unsubscribe(name, fn) if fn is not None else False
             log.append([5, op[1], sub, bool(found)])
         elif k == 3:
